@@ -1,13 +1,17 @@
 package c12
 
 import (
+	"bytes"
 	"crypto/rand"
 	"crypto/sha256"
 	"encoding/hex"
+	"errors"
 	"io"
 	"math/big"
 	"os"
 	"path/filepath"
+
+	"oras.land/oras-go/v2/errdef"
 )
 
 func nil2() io.Reader  { return rand.Reader }
@@ -19,3 +23,10 @@ func plantCRL(root, url string, content []byte) {
 	h := sha256.Sum256([]byte(url))
 	os.WriteFile(filepath.Join(root, hex.EncodeToString(h[:])), content, 0o644)
 }
+
+// helpers for the registry sweep
+func bytesReader(b []byte) io.Reader { return bytes.NewReader(b) }
+
+var errAlreadyExists = errdef.ErrAlreadyExists
+
+func isAlreadyExists(err error) bool { return errors.Is(err, errdef.ErrAlreadyExists) }
